@@ -7,7 +7,7 @@ use futures::{
 use std::{
     error::Error,
     fmt,
-    mem::size_of,
+    mem::{self, size_of},
     pin::Pin,
     sync::{
         Arc, Weak,
@@ -412,7 +412,10 @@ impl Sender {
         let mut credits = AssignedCredits::default();
 
         while !ports_response.is_empty() {
-            if credits.is_empty() {
+            if (credits.available() as usize) < size_of::<u32>() {
+                // Return remaining credits, which are insufficient for even one port.
+                drop(mem::take(&mut credits));
+
                 let data_len = ports_response.len() * size_of::<u32>();
                 credits =
                     self.credits.request(data_len.min(u32::MAX as usize) as u32, size_of::<u32>() as u32).await?;
